@@ -6,6 +6,7 @@ CONSTANTS
   MaxCalls = 1
   MaxExpire = 1
   Kinds = {"dial"}
+  ZeroDuration = FALSE
   Faults = TRUE
 INVARIANTS TypeOK SizeBound
 PROPERTIES EveryCallReturns
